@@ -259,7 +259,7 @@ Proof. exact infix_ops_complete. Qed.
 (* ---------------------------------------------------------------------------------------------
    Soundness of the parser with respect to the table, for EVERY token stream (the converse of the
    round trip). *)
-Require Import Blots.proofs.PrattComplete Blots.proofs.PrattConverse.
+Require Import Blots.proofs.PrattComplete Blots.proofs.PrattConverse Blots.proofs.PrattIff.
 
 (* The relations derive everything the function returns (with C10_relations_sound: the two
    transcriptions agree on successful conversions). *)
@@ -272,7 +272,7 @@ Print Assumptions C10_relations_complete.
 
 (* P0  Whatever token stream `its` the crate's parser converts successfully, with whatever result t:
    `its` is a rendering of t that carries at least the parentheses spec_table requires.
-   RendSpec m its t (proofs/PrattConverse.v, relation Rend): `its` is
+   RendSpec m its t (proofs/PrattConverse.v, relation Rend; m = 1: any operand): `its` is
      - a single non-operator pair whose own conversion gives t (a literal, a name, a parenthesised
        group, a list, ... — nested streams are converted by the same parser), or
      - il ++ op :: ir with op an infix token of constructor o, m <= level(o), il rendering the left
@@ -282,11 +282,25 @@ Print Assumptions C10_relations_complete.
      - a rendering of the operand at a level above the prefix level, followed by a postfix token.
    So no input is ever grouped against the table.  Induction on the parse derivation. *)
 Theorem C10_parse_sound : forall fuel its t,
-  parse_impl fuel its = Ok (Some t) -> RendSpec 0 its t.
+  parse_impl fuel its = Ok (Some t) -> RendSpec 1 its t.
 Proof. intros fuel its t H. apply parse_sound_impl. exact (rel_complete _ _ _ fuel its t H). Qed.
 Check C10_parse_sound : forall fuel its t,
-  parse_impl fuel its = Ok (Some t) -> RendSpec 0 its t.
+  parse_impl fuel its = Ok (Some t) -> RendSpec 1 its t.
 Print Assumptions C10_parse_sound.
+
+(* P0  ... and conversely every such rendering is converted to the tree it renders: the parser accepts
+   EXACTLY the renderings that carry at least the parentheses spec_table requires, and returns the
+   rendered tree (a complete characterisation of the token level). *)
+Theorem C10_parse_iff : forall its t,
+  (exists n, forall m, n <= m -> parse_impl m its = Ok (Some t)) <-> RendSpec 1 its t.
+Proof.
+  intros its t. split.
+  - intros [n Hn]. exact (C10_parse_sound n its t (Hn n (le_n n))).
+  - intro H. apply items_sound. apply rend_parses_impl. exact H.
+Qed.
+Check C10_parse_iff : forall its t,
+  (exists n, forall m, n <= m -> parse_impl m its = Ok (Some t)) <-> RendSpec 1 its t.
+Print Assumptions C10_parse_iff.
 
 (* ... and every result of the function satisfies wf *)
 Theorem C10_function_outputs_wf : forall fuel its t, parse_impl fuel its = Ok (Some t) -> wf t = true.
@@ -296,6 +310,6 @@ Print Assumptions C10_function_outputs_wf.
 
 (* an instance: a + b * c renders Add a (Multiply b c) *)
 Example rend_example :
-  RendSpec 0 [IIdent "a"; IOp R_add; IIdent "b"; IOp R_multiply; IIdent "c"]
+  RendSpec 1 [IIdent "a"; IOp R_add; IIdent "b"; IOp R_multiply; IIdent "c"]
            (EBin Add (EId "a") (EBin Multiply (EId "b") (EId "c"))).
 Proof. apply (C10_parse_sound 20). vm_compute. reflexivity. Qed.
